@@ -105,6 +105,7 @@ type vf9Pop struct {
 	entries []vf9Entry // in ascending atime order (oldest first)
 	extras  []string   // lost+found dirs, .DS_Store files (relative)
 	name    string
+	step    time.Duration // distance between consecutive access times (0: one hour)
 }
 
 func vf9Reset(dir string) {
@@ -124,7 +125,11 @@ func vf9Write(dir string, p *vf9Pop) error {
 		if err := os.WriteFile(full, data, 0o644); err != nil {
 			return err
 		}
-		at := base.Add(time.Duration(i) * time.Hour)
+		step := p.step
+		if step == 0 {
+			step = time.Hour
+		}
+		at := base.Add(time.Duration(i) * step)
 		if err := os.Chtimes(full, at, at); err != nil {
 			return err
 		}
@@ -333,6 +338,26 @@ func vf9RunOne(rep *vlib.Report, dir string, p *vf9Pop, max int64, maxName, mode
 }
 
 // vf9FinalRel: where the file of e lives after migration.
+func vf9Perms(n int, fn func([]int)) {
+	a := make([]int, n)
+	for i := range a {
+		a[i] = i
+	}
+	var rec func(k int)
+	rec = func(k int) {
+		if k == n {
+			fn(append([]int(nil), a...))
+			return
+		}
+		for i := k; i < n; i++ {
+			a[k], a[i] = a[i], a[k]
+			rec(k + 1)
+			a[k], a[i] = a[i], a[k]
+		}
+	}
+	rec(0)
+}
+
 func vf9FinalRel(e vf9Entry) string {
 	ks := e.kind.kind.String()
 	switch e.kind.layout {
@@ -431,6 +456,26 @@ func TestVfC09(t *testing.T) {
 		g.kind = vf9Kinds[0]
 		g.suffix = "555"
 		pops = append(pops, &vf9Pop{name: "duplicate-legacy-and-v2", entries: []vf9Entry{f, g}})
+	}
+	// access times that differ only below a second / millisecond / microsecond
+	// (the file system records nanoseconds): four same-kind entries in every
+	// one of the 24 orders relative to their names, so that directory order and
+	// access-time order disagree
+	for _, step := range []time.Duration{time.Nanosecond, time.Microsecond, 300 * time.Microsecond, 7 * time.Millisecond} {
+		for _, kd := range []int{2, 4} {
+			var four []vf9Entry
+			for i := 0; i < 4; i++ {
+				four = append(four, vf9Make(vf9Kinds[kd], "1blk", ""))
+			}
+			sort.Slice(four, func(i, j int) bool { return four[i].hash < four[j].hash })
+			vf9Perms(4, func(pm []int) {
+				pp := &vf9Pop{name: "fine-atime", step: step}
+				for _, x := range pm {
+					pp.entries = append(pp.entries, four[x])
+				}
+				pops = append(pops, pp)
+			})
+		}
 	}
 	rep.Extra["populations"] = len(pops)
 	n := 0
